@@ -19,8 +19,7 @@ def run(tier, seed):
               'scope is seen by every attached symbol of that name (any spelling) and not by a detached one; clone/rescope'),
         functions=['loki.expression.symbols.Variable.__new__ / _get_type_from_scope', 'TypedSymbol.type getter/setter',
                    'TypedSymbol.clone / rescope', 'loki.types.Scope / SymbolTable (as used)'],
-        bounds={'declared_types': 7, 'spellings': 3, 'scope_depth': 2, 'outside': 'derived-type members resolved through typedefs, '
-                'DerivedTypeSymbol tier (name equals type name)'},
+        bounds={'declared_types': 7, 'spellings': 3, 'scope_depth': 2, 'members': 'derived-type members resolved through a type definition, with stale DEFERRED placeholders', 'outside': 'DerivedTypeSymbol tier (name equals type name), nested derived types'},
         assumptions=['tier table transcribed from the Variable docstring'],
         timeout_quick=150, timeout_thorough=600)
 
